@@ -12,7 +12,7 @@ cd /verif
 mkdir -p "$DST"
 cp "$OUT"/* "$DST"/ 2>/dev/null
 DEMO=$(python3 -c "import json;print(json.load(open('$OUT/meta.json'))['demo_cmd'])")
-TESTS=$(python3 -c "import json;print(json.load(open('$OUT/meta.json'))['existing_tests_cmd'])")
+TESTS=$(python3 -c "import json,re;print(re.split(r'\s{2,}\(', json.load(open('$OUT/meta.json'))['existing_tests_cmd'])[0])")  # drop a trailing '  (explanation)'
 SKIP=$(echo "$DEMO" | grep -o '\-run [^ ]*' | head -1 | awk '{print $2}' | tr -d "'\"")
 [ -n "$SKIP" ] && TESTS=$(echo "$TESTS" | sed "s/go test /go test -skip '$SKIP' /")
 git -C "$WT" checkout -- . ; git -C "$WT" apply "$OUT/patch.diff" || { echo "patch does not apply on clean tree"; exit 2; }
